@@ -135,6 +135,7 @@ class Shadow:
         self.regular = []     # [handle, key, arrival]
         self.arr = 0
         self.fail = None
+        self.tags = set()
 
     def key_of(self, handle):
         task = ext.default.task_from_handle(handle)
@@ -177,7 +178,13 @@ class Shadow:
     def rekey(self, task):
         for e in self.regular:
             if ext.default.task_from_handle(e[0]) is task:
-                e[1] = self.key_of(e[0])
+                k = self.key_of(e[0])
+                if k != e[1]:
+                    self.tags.add("re-keyed-through-inheritance")
+                e[1] = k
+        for h in self.pinned:
+            if ext.default.task_from_handle(h) is task:
+                self.tags.add("positional-entry-re-evaluated")
 
     def describe(self, handle):
         for h in self.pinned:
@@ -188,8 +195,28 @@ class Shadow:
                 return f"{self.r.label(handle)}(pri={Fraction(e[1])},arrival={e[2]})"
         return f"{self.r.label(handle)}(unknown)"
 
+    def _situations(self, handle):
+        if any(h is handle for h in self.pinned):
+            k = self.key_of(handle)
+            if any(e[1] < k for e in self.regular):
+                self.tags.add("position-overrides-priority")
+            return
+        for e in self.regular:
+            if e[0] is handle:
+                if any(o is not e and o[1] == e[1] for o in self.regular):
+                    self.tags.add("tie-resolved-by-arrival")
+                if any(o[1] > e[1] and o[2] < e[2] for o in self.regular):
+                    self.tags.add("overtook-earlier-arrival")
+                task = ext.default.task_from_handle(handle)
+                if task is not None and hasattr(task, "priority_value") and numval(task.priority_value) != e[1]:
+                    self.tags.add("inherited-priority-used")
+
     def running(self, handle):
         """called when the loop runs `handle`"""
+        try:
+            self._situations(handle)
+        except Exception:  # noqa: BLE001 - statistics only
+            pass
         if self.fail is None:
             order = self.order()
             if not order or order[0] is not handle:
@@ -230,6 +257,7 @@ class RealRunner:
         self.runnable_fail = None
         self.next_sid = None
         self.ndraw = 0
+        self.maint = 0
 
     # ---- labels
     def label(self, handle):
@@ -256,6 +284,15 @@ class RealRunner:
             loop = PrioritySelectorEventLoop()
             if self.boost is not None:
                 loop.ready_queue.priority_boost_factor = self.boost
+            try:      # statistics only: count maintenance rounds
+                orig_maint = loop.ready_queue.do_maintenance
+
+                def do_maintenance():
+                    self.maint += 1
+                    return orig_maint()
+                loop.ready_queue.do_maintenance = do_maintenance
+            except AttributeError:
+                pass
         loop.set_task_factory(self._factory)
         loop.set_exception_handler(self._exc_handler)
         return loop
